@@ -12,6 +12,7 @@ OVERLAY = {
     "webhook_export.go": "pkg/controller/webhook/zz_verif_export.go",
     "ipamnode_export.go": "pkg/controller/multi-ip/node/zz_verif_export.go",
     "podctl_export.go": "pkg/controller/pod/zz_verif_export.go",
+    "storage_export.go": "pkg/storage/zz_verif_export.go",
 }
 
 NOT_APPLICABLE = {}
@@ -841,13 +842,29 @@ def sig_C05(ins, outs, extra=""):
         if code == 503:
             # two records on disk claiming one address: a DEL released it and stalled before deleting its record
             claims = {}
+            dels = {}        # rid -> pod of the DEL requests in flight
+            released = set() # pods whose recorded allocation was released by a DEL that has not removed the record (yet)
             for r in recs:
-                if r[0] == 42 and r[1] == 2:
+                if r[0] == 32:
+                    dels[r[1]] = r[2]
+                elif r[0] == 41:
+                    dels.pop(r[1], None)
+                elif r[0] == 22 and r[2] in dels.values() and r[2] in claims:
+                    released.add(r[2])
+                elif r[0] == 42 and r[1] == 2:
                     claims[r[2]] = (r[4], r[5], r[6])
+                    released.discard(r[2])
                 elif r[0] == 42 and r[1] == 4:
                     claims.pop(r[2], None)
-                elif r[0] == 50 and len(set(claims.values())) < len(claims):
-                    return "C05:restart:acknowledged-allocation-lost-to-stale-record-of-unfinished-DEL"
+                    released.discard(r[2])
+                elif r[0] == 50:
+                    # every address claimed twice has a claimant whose DEL released it and left the record
+                    by_addr = {}
+                    for pod, c in claims.items():
+                        by_addr.setdefault(c, []).append(pod)
+                    dup = [pods for pods in by_addr.values() if len(pods) > 1]
+                    if dup and all(any(q in released for q in pods) for pods in dup):
+                        return "C05:restart:acknowledged-allocation-lost-to-stale-record-of-unfinished-DEL"
     except Exception:
         pass
     return "C05:clause%d" % code
